@@ -57,6 +57,7 @@ fn run_property(ctx: &Ctx) -> Option<(Level, Report)> {
 		"C09" => c09::run(ctx),
 		"C05" => programs::run_c05(ctx),
 		"C17" => programs::run_c17(ctx),
+		"C20" => c20::run(ctx),
 		_ => return None,
 	})
 }
@@ -74,6 +75,7 @@ fn replay_direct(ctx: &Ctx, doc: &Value) -> Option<Result<(), Violation>> {
 	match ctx.property {
 		"C03" => c03::replay_direct(ctx, doc),
 		"C04" => c04::replay_direct(ctx, doc),
+		"C20" => c20::replay_direct(ctx, doc),
 		"C05" | "C13" | "C17" => programs::replay_program(ctx, doc),
 		_ => None,
 	}
